@@ -243,7 +243,16 @@ def run(ctx):
         cover, cov = gen_cover(ctx)
         ncover = len(cover)
         ctx.log("M2: layout cover: %d signatures from %d distinct states" % (ncover, cov.distinct))
-        hists = cover + hists[: max(0, cap - ncover)]
+        # transition cover on top of the layout cover: every covered layout followed by one more
+        # maintenance action (the driver reports "nofill"/"noop" where the action does not apply)
+        ext = [h + [{"op": a}] for h in cover for a in ("MoveL0", "IngestMerge", "IngestDrain", "CompactL1", "Reopen", "Flush", "Rotate")
+               if not h or h[-1]["op"] != a or a in ("IngestMerge", "IngestDrain")]
+        ctx.rng.shuffle(ext)
+        if quick:
+            ext = ext[:260]
+        cover = cover + ext
+        ncover = len(cover)
+        hists = cover + hists[: (100 if quick else cap)]
     for i, h in enumerate(hists):
         reps = [cfgs[(i + ctx.seed) % len(cfgs)]] if quick else cfgs
         if quick and i < ncover:  # every layout at least once inline and once through the value log
